@@ -167,7 +167,109 @@ let gen seed count maxpool =
     done
   done
 
+
+(* ---------------------------------------------------------------------------------------------
+   POINTER-LEVEL model (Rb/RbPtr.v):  <driver> ptr   — same scripts, same canonical state line, but every line
+   is produced by running the assignment-by-assignment transliteration of rbtree.hpp on a heap of hooks
+   (p_insert / p_remove / p_insert_before / p_first; rotateLeft / rotateRight for the `raw` scripts that call
+   the private rotation helpers directly).  Nothing of the functional model is used here.
+   Heap representation: the extracted heap is a closure chain (one closure per assignment).  To keep lookups
+   O(1) on 10^4-node trees the driver re-tabulates after every operation: the ids written by the operation
+   (p_wlog, instrumentation of the model) are read through the chain and stored in an array, and the next
+   operation starts from the array-backed function — extensionally the same heap. *)
+let ptr_fuel = nat_of_int 400
+
+let body_ptr lines =
+  match lines with
+  | [] -> ()
+  | hd :: ops ->
+    let hdw = (match words hd with [a; b; c; d] -> [a; b; c; d; "1"] | w -> w) in
+    (match hdw with
+     | ["cfg"; kind; p; mode; ev] when (try int_of_string p >= 1 && int_of_string p <= 200000 with _ -> false) ->
+       let cmp = kind <> "ord" and raw = (kind = "raw") and pool = int_of_string p and hashmode = (mode = "hash") in
+       let every = (match int_of_string_opt ev with Some e -> e | None -> 1) in
+       let nlines = List.length ops and li = ref 0 in
+       let less = pless N.ltb in
+       let keys = Array.make pool N0 in
+       let ek (i : n) : pelt = let k = int_of_n i in ((if k >= 0 && k < pool then keys.(k) else N0), i) in
+       let arr = Array.make pool null_hook in
+       let base (j : n) : hook = let k = int_of_n j in if k >= 0 && k < pool then arr.(k) else null_hook in
+       let st : unit pstate ref = ref { pp_empty with p_hooks = base } in
+       let member = Array.make pool false in
+       let stopped = ref false in
+       let undo : (int * bool) option ref = ref None in
+       let flush (s' : unit pstate) =
+         let vals = List.map (fun i -> (int_of_n i, s'.p_hooks i)) s'.p_wlog in
+         List.iter (fun (k, h) -> if k >= 0 && k < pool then arr.(k) <- h) (List.rev vals);
+         st := { p_hooks = base; p_root = s'.p_root; p_annots = s'.p_annots; p_wlog = [] } in
+       let dump () =
+         let b = Buffer.create 1024 in
+         let fst_s = (match p_first ptr_fuel !st with
+                      | POk None -> "-" | POk (Some i) -> string_of_n i
+                      | PAssert _ -> "assert" | PUB _ -> "ub" | POutOfFuel -> "outoffuel") in
+         Buffer.add_string b ("t " ^ s_opt (!st).p_root ^ " " ^ fst_s);
+         Array.iteri (fun i h ->
+           Buffer.add_string b (Printf.sprintf " | %d:%s,%s,%s,%s,%s,%s" i (s_opt h.h_parent) (s_opt h.h_left)
+             (s_opt h.h_right) (s_opt h.h_pred) (s_opt h.h_succ)
+             (if not member.(i) then "-" else match h.h_color with Some Red -> "R" | Some Black -> "B" | None -> "?"))) arr;
+         let s = Buffer.contents b in
+         if hashmode then Printf.printf "h %016Lx\n" (fnv s) else (print_string s; print_string "\n") in
+       let dump () = if every <= 1 || !li mod every = 0 || !li = nlines then dump () in
+       let finish (r : unit pstate pres) (after : unit -> unit) =
+         match r with
+         | POk s' -> flush s'; after (); dump ()
+         | PAssert _ -> print_string "assert\n"; stopped := true
+         | PUB l -> print_string ("ub " ^ string_of_n l ^ "\n"); stopped := true
+         | POutOfFuel -> print_string "outoffuel\n"; stopped := true in
+       let valid_id s = match int_of_string_opt s with Some i when i >= 0 && i < pool -> Some i | _ -> None in
+       List.iter (fun l ->
+         incr li;
+         if not !stopped then
+         match words l with
+         | ["i"; k; id] when cmp ->
+           (match valid_id id with
+            | Some i when not member.(i) ->
+              keys.(i) <- n_of_string k;
+              finish (p_insert less pagg paeqb ek ptr_fuel !st (n_of_int i)) (fun () -> member.(i) <- true)
+            | _ -> print_string "skip\n")
+         | ["b"; bf; id] when not cmp ->
+           let bid = if bf = "-" then Some (-1) else (match int_of_string_opt bf with Some i when i < pool -> Some i | _ -> None) in
+           (match valid_id id, bid with
+            | Some i, Some bi when not member.(i) && (bi < 0 || member.(bi)) ->
+              keys.(i) <- N0;
+              let before = if bi < 0 then None else Some (n_of_int bi) in
+              finish (p_insert_before pagg paeqb ek ptr_fuel !st before (n_of_int i)) (fun () -> member.(i) <- true)
+            | _ -> print_string "skip\n")
+         | ["r"; id] ->
+           (match valid_id id with
+            | Some i when member.(i) ->
+              finish (p_remove pagg paeqb ek ptr_fuel !st (n_of_int i)) (fun () -> member.(i) <- false)
+            | _ -> print_string "skip\n")
+         | [("L" | "R") as o; id] when raw ->
+           (* the private helpers rotateLeft(n) / rotateRight(n), called directly; only when their assertion holds *)
+           (match valid_id id with
+            | Some i when member.(i) ->
+              let h = arr.(i) in
+              (match h.h_parent with
+               | Some u when (let hu = base u in (if o = "L" then hu.h_right else hu.h_left) = Some (n_of_int i)) ->
+                 finish ((if o = "L" then rotateLeft else rotateRight) pagg paeqb ek !st (n_of_int i))
+                   (fun () -> undo := Some (int_of_n u, o = "L"))
+               | _ -> print_string "skip\n")
+            | _ -> print_string "skip\n")
+         | ["U"] when raw ->
+           (match !undo with
+            | Some (i, was_left) when member.(i) ->
+              (match arr.(i).h_parent with
+               | Some u when (let hu = base u in (if was_left then hu.h_left else hu.h_right) = Some (n_of_int i)) ->
+                 finish ((if was_left then rotateRight else rotateLeft) pagg paeqb ek !st (n_of_int i)) (fun () -> undo := None)
+               | _ -> print_string "skip\n")
+            | _ -> print_string "skip\n")
+         | [] -> ()
+         | _ -> print_string "skip\n") ops
+     | _ -> print_string "badcfg\n")
+
 let () =
-  if Array.length Sys.argv >= 5 && Sys.argv.(1) = "gen" then
+  if Array.length Sys.argv >= 2 && Sys.argv.(1) = "ptr" then run_cases body_ptr
+  else if Array.length Sys.argv >= 5 && Sys.argv.(1) = "gen" then
     gen (int_of_string Sys.argv.(2)) (int_of_string Sys.argv.(3)) (int_of_string Sys.argv.(4))
   else run_cases body
